@@ -21,11 +21,11 @@ from rv.util import B, CLASSES, call, exc_matches
 PROP = 'C10'
 SENTINELS = False      # installed by run() itself, after the two exhaustive sweeps (see run)
 SHARDS = {'quick': 4, 'thorough': 16}
-RULE = ("int cases: every integer of [-4096,4096] (quick) / [-65536,65536] (thorough) x 4 codes, plus power-of-two "
+RULE = ("int cases: every integer of [-4096,4096] (quick; prefix and extra-bit battery for [-2048,2048]) / [-65536,65536] (thorough) x 4 codes, plus power-of-two "
         "neighbours and random integers out to 2**200, each through every creation route (keyword with the class rotating on v, all 4 classes for |v|<=32, "
         "property assignment on BitArray/BitStream, token string, Dtype.build, pack positional/'=v'/keyword) and "
         "reading route (property, Dtype.parse, unpack, read, peek, readlist, peeklist), every proper prefix of the "
-        "codeword (all cuts in the window, boundary+random cuts for huge values) and codeword+{0,1,10}; negative "
+        "codeword (all cuts in the window - in the quick tier a non-boundary cut of |v|>64 alternates between the property and read - boundary+random cuts for huge values) and codeword+{0,1,10}; negative "
         "values for ue/uie through every creation route. dec cases: EVERY bit string of length <=12 (quick) / <=16 "
         "(thorough) as decoder input at pos in {0,2} via read/peek/readlist on ConstBitStream/BitStream and via the "
         "whole-bitstring property and Dtype.parse. seq cases: random mixed sequences of the four codes read one by "
@@ -56,6 +56,7 @@ CODES = ('ue', 'se', 'uie', 'sie')
 UNSIGNED = ('ue', 'uie')
 STREAMS = ('ConstBitStream', 'BitStream')
 WINDOW = {'quick': 4096, 'thorough': 65536}
+PREFIX_WINDOW = {'quick': 2048, 'thorough': 65536}    # truncation / extra-bits battery inside the window
 SWEEP_LEN = {'quick': 12, 'thorough': 16}
 
 # Literal rows: H.264 Table 9-2 (codeNum) with 9.1.1 mapping for se(v); Dirac spec (interleaved exp-Golomb) tables.
@@ -279,6 +280,10 @@ def judge_int(ctx, c):
             j.value('peeklist', ic, (code, nb, 'peeklist-' + cls), call(lambda: (s.peeklist([code]), s.pos)), ([v], p0))
             j.value('readlist', ic, (code, nb, 'readlist-' + cls), call(lambda: (s.readlist(code), s.pos)), ([v], p0 + n))
 
+    ctx.state('int', code, n, p0)
+    if c.get('routes_only'):
+        return
+
     # ---- codeword + extra bits: read stops after the codeword, whole-bitstring views refuse -----------
     ice = f'{code}:codeword+extra'
     for k, extra in enumerate(('0', '1', '10')):
@@ -295,10 +300,13 @@ def judge_int(ctx, c):
 
     # ---- every proper prefix is truncated ----------------------------------------------------
     z = cw.find('1')
-    boundary = {0, 1, n - 1, z, z + 1}
+    boundary = {0, n - 1, z, z + 1} if c.get('lite') else {0, 1, n - 1, z, z + 1}
     cuts = c.get('cuts')
     if cuts is None:
         cuts = range(n)
+    # lite (quick-tier window): a non-boundary prefix goes through the property or through read,
+    # alternating with cut+v; the full battery runs in the thorough tier and at the boundary cuts.
+    lite = bool(c.get('lite'))
     for cut in cuts:
         if not 0 <= cut < n:
             continue
@@ -306,24 +314,29 @@ def judge_int(ctx, c):
         ict = f'{code}:' + ('no-bits' if cut == 0 else 'truncated')
         cls = util.CLASS_NAMES[(cut + v) % 4]
         o = mkobj(cls, t)
-        j.rejects('property-truncated', ict, (code, nb, 'property-truncated'), call(lambda: getattr(o, code)),
-                  'ValueError', accepted='truncated-accepted')
-        s = o if cls in STREAMS else mkobj(STREAMS[cut % 2], t)
-        got = call(lambda: s.read(code))
-        j.rejects('read-truncated', ict, (code, nb, 'read-truncated'), got, 'ReadError',
-                  accepted='truncated-accepted', pos=(s.pos, 0))
+        both = not lite or cut in boundary
+        if both or (cut + v) % 2 == 0:
+            j.rejects('property-truncated', ict, (code, nb, 'property-truncated'), call(lambda: getattr(o, code)),
+                      'ValueError', accepted='truncated-accepted')
+        if both or (cut + v) % 2 == 1:
+            s = o if cls in STREAMS else mkobj(STREAMS[cut % 2], t)
+            got = call(lambda: s.read(code))
+            j.rejects('read-truncated', ict, (code, nb, 'read-truncated'), got, 'ReadError',
+                      accepted='truncated-accepted', pos=(s.pos, 0))
         if cut in boundary:
             # the same with bits before the read position, and the other reading routes
             s2 = mkobj(STREAMS[(cut + 1) % 2], '10' + t, 2)
             got = call(lambda: s2.read(code))
             j.rejects('read-truncated', ict, (code, nb, 'read-truncated'), got, 'ReadError',
                       accepted='truncated-accepted', pos=(s2.pos, 2))
-            got = call(lambda: s2.peek(code))
-            j.rejects('peek-truncated', ict, (code, nb, 'peek-truncated'), got, 'ReadError',
-                      accepted='truncated-accepted', pos=(s2.pos, 2))
-            got = call(lambda: s2.readlist(code))
-            j.rejects('readlist-truncated', ict, (code, nb, 'readlist-truncated'), got, 'ReadError',
-                      accepted='truncated-accepted', pos=(s2.pos, 2))
+            if not lite or (cut + v) % 2 == 0:
+                got = call(lambda: s2.peek(code))
+                j.rejects('peek-truncated', ict, (code, nb, 'peek-truncated'), got, 'ReadError',
+                          accepted='truncated-accepted', pos=(s2.pos, 2))
+            if not lite or (cut + v) % 2 == 1:
+                got = call(lambda: s2.readlist(code))
+                j.rejects('readlist-truncated', ict, (code, nb, 'readlist-truncated'), got, 'ReadError',
+                          accepted='truncated-accepted', pos=(s2.pos, 2))
             which = (cut + v) % 3 if not (small or 'cuts' in c) else -1
             if which in (-1, 0):
                 got = call(lambda: s2.peeklist(code))
@@ -335,7 +348,6 @@ def judge_int(ctx, c):
             if which in (-1, 2):
                 j.rejects('parse-truncated', ict, (code, nb, 'parse-truncated'), call(lambda: Dtype(code).parse(o)),
                           ('ValueError', 'ReadError'), accepted='truncated-accepted')
-    ctx.state('int', code, n, p0)
 
 
 # ---- table rows (literal codewords from the standards) ----------------------------------------------
@@ -596,9 +608,9 @@ def directed(ctx):
 
 def boundary_ints(ctx):
     """Neighbours of powers of two beyond the exhaustive window."""
-    W = WINDOW[ctx.tier]
+    W = PREFIX_WINDOW[ctx.tier]
     ks = range(W.bit_length(), 201) if not ctx.quick else \
-        sorted(set(range(W.bit_length(), 34)) | {47, 48, 63, 64, 65, 100, 127, 128, 129, 199, 200})
+        sorted(set(range(W.bit_length(), 21)) | {31, 32, 33, 63, 64, 65, 127, 128, 199, 200})
     for k in ks:
         for d in (-2, -1, 0, 1):
             for sg in (1, -1):
@@ -615,17 +627,25 @@ def run(ctx):
 
     # 1. exhaustive integer window x 4 codes
     W = WINDOW[ctx.tier]
+    P = PREFIX_WINDOW[ctx.tier]
     cnt = 0
     for i, v in enumerate(range(-W, W + 1)):
         if not ctx.mine(i):
             continue
         for code in CODES:
             c = {'k': 'int', 'code': code, 'v': v}
+            if ctx.quick and abs(v) > 64:
+                c['lite'] = True
+            if abs(v) > P:
+                c['routes_only'] = True
             ctx.run_case(judge, c)
             cnt += 1
             if cnt % 4001 == 0:
                 ctx.sample(c)
-    ctx.exhaustive[f'integers[-{W},{W}] x (ue,se,uie,sie) x all creation/reading routes, all proper prefixes, +{{0,1,10}}'] = True
+    ctx.exhaustive[f'integers[-{W},{W}] x (ue,se,uie,sie) x every creation and reading route: exact codeword, '
+                   f'decode inverse, negative rejected'] = True
+    ctx.exhaustive[f'integers[-{P},{P}] x (ue,se,uie,sie): every proper prefix of the codeword rejected, '
+                   f'codeword+{{0,1,10}} refused by the whole-bitstring views'] = True
 
     # 2. every bit string up to N bits as decoder input
     N = SWEEP_LEN[ctx.tier]
@@ -654,7 +674,7 @@ def run(ctx):
         if ctx.mine(i):
             for code in CODES:
                 ctx.run_case(judge, gen_huge(ctx, v, code))
-    for i in range(ctx.scale(600, 40000)):
+    for i in range(ctx.scale(400, 40000)):
         code = rng.choice(CODES)
         c = gen_huge(ctx, rand_int(rng, True), code)
         ctx.run_case(judge, c)
@@ -662,7 +682,7 @@ def run(ctx):
             ctx.sample(short(c))
 
     # 4. mixed sequences
-    for i in range(ctx.scale(3000, 120000)):
+    for i in range(ctx.scale(2000, 120000)):
         c = gen_seq(ctx)
         ctx.run_case(judge, c)
         if i % 997 == 0:
